@@ -225,14 +225,15 @@ def oracle(ctx, f, spa, asg_s, which, full):
     inp = {"kind": "scan", "cfg": spa.cfg, "log": spa.log, "assignment": asg_s, "facade": which}
     key_tail = f"{spa.cfg}:{spa.log}:{asg_s}"
     got = [(d["device"], d["user_demand"]["demand"]) for d in f.actual_user_devices]
-    exp = want if which == "async" else sorted(want)
-    if (got if which == "async" else sorted(got)) != exp:
+    in_order = which == "async" or SYNC_ORDERED
+    exp = want if in_order else sorted(want)
+    if (got if in_order else sorted(got)) != exp:
         viol(ctx, f"inventory-{which}:{key_tail}", inp, want, got)
         return
     for cls, lst, tname in (("PUMP", f.pumps, "GeckoPump"), ("BLOWER", f.blowers, "GeckoBlower"), ("LIGHT", f.lights, "GeckoLight")):
         w = [d for d, _ in want if STATEMENT_DEVICES[d] == cls]
         g = [x.key for x in lst]
-        if (g if which == "async" else sorted(g)) != (w if which == "async" else sorted(w)) or any(type(x).__name__ != tname for x in lst):
+        if (g if in_order else sorted(g)) != (w if in_order else sorted(w)) or any(type(x).__name__ != tname for x in lst):
             viol(ctx, f"classes-{which}:{cls}:{key_tail}", inp, w, [(x.key, type(x).__name__) for x in lst])
     for p in f.pumps:
         ud = dict(want).get(p.key)
@@ -326,8 +327,13 @@ def parse_dump(line):
     return out
 
 
+SYNC_ORDERED = False      # set in run(): the regenerated Generated/DeviceTable.lean says syncDedup = .orderPreserving
+
+
 def cmp_sections(model, impl, which, mode):
     """names of the sections in which model and implementation differ"""
+    if which == "sync" and SYNC_ORDERED:
+        return cmp_sections_ordered(model, impl, mode)
     bad = []
     secs = ["vals", "aud", "pumps", "blowers", "lights", "sensors", "bsensors", "eco"]
     for s in secs:
@@ -348,6 +354,13 @@ def cmp_sections(model, impl, which, mode):
                 bad.append(s)
         if which == "async" and model.get("absent") != impl.get("absent"):
             bad.append("absent")
+    return bad
+
+
+def cmp_sections_ordered(model, impl, mode):
+    bad = [s for s in ("vals", "aud", "pumps", "blowers", "lights", "sensors", "bsensors", "eco") if model.get(s, "?") != impl.get(s, "?")]
+    if mode == "full":
+        bad += [s for s in ("devices", "get") if model.get("s" + s, "?") != impl.get(s, "?")]
     return bad
 
 
@@ -443,6 +456,12 @@ def run(ctx):
         if v != "ok":
             ctx.obligation_broken(f"translate:{k}", v)
     ctx.lean_obligations("GeckoModel.Properties.C12")
+    global SYNC_ORDERED
+    try:
+        SYNC_ORDERED = "def syncDedup : DedupKind := .orderPreserving" in (translate.GEN / "DeviceTable.lean").read_text()
+    except Exception:  # noqa
+        SYNC_ORDERED = False
+    ctx.cov["threaded_scan_compared_in_order"] = SYNC_ORDERED
     mods = packs.load_tables()
     plat = platform_pairs(mods)
     rng = ctx.rng
